@@ -77,3 +77,80 @@ Proof.
       vm_compute; reflexivity.
   - split; [intros E; discriminate E|]. vm_compute. reflexivity.
 Qed.
+
+(* ---- arithmetic commutes with the dense twin (by-value operators) ---- *)
+Theorem band_arith_dense : forall (A : Arith), RingLaws A -> forall (B C : banded A) (s : A),
+  wfB B -> wfB C -> bn C = bn B -> bm1 C = bm1 B -> bm2 C = bm2 B ->
+  (exists R, band_neg B = Ok R /\ like B R /\
+     forall i j, i < bn B -> j < bn B -> dense_entry R i j = neg (dense_entry B i j)) /\
+  (exists R, band_add B C = Ok R /\ like B R /\
+     forall i j, i < bn B -> j < bn B -> dense_entry R i j = add (dense_entry B i j) (dense_entry C i j)) /\
+  (exists R, band_sub B C = Ok R /\ like B R /\
+     forall i j, i < bn B -> j < bn B -> dense_entry R i j = sub (dense_entry B i j) (dense_entry C i j)) /\
+  (exists R, band_scale B s = Ok R /\ like B R /\
+     forall i j, i < bn B -> j < bn B -> dense_entry R i j = mul (dense_entry B i j) s).
+Proof. intros A RL B C s. exact (band_arith_dense_lemma RL B C s). Qed.
+Check band_arith_dense : forall (A : Arith), RingLaws A -> forall (B C : banded A) (s : A),
+  wfB B -> wfB C -> bn C = bn B -> bm1 C = bm1 B -> bm2 C = bm2 B ->
+  (exists R, band_neg B = Ok R /\ like B R /\
+     forall i j, i < bn B -> j < bn B -> dense_entry R i j = neg (dense_entry B i j)) /\
+  (exists R, band_add B C = Ok R /\ like B R /\
+     forall i j, i < bn B -> j < bn B -> dense_entry R i j = add (dense_entry B i j) (dense_entry C i j)) /\
+  (exists R, band_sub B C = Ok R /\ like B R /\
+     forall i j, i < bn B -> j < bn B -> dense_entry R i j = sub (dense_entry B i j) (dense_entry C i j)) /\
+  (exists R, band_scale B s = Ok R /\ like B R /\
+     forall i j, i < bn B -> j < bn B -> dense_entry R i j = mul (dense_entry B i j) s).
+Print Assumptions band_arith_dense.
+Example band_arith_dense_nonvacuous :
+  RingLaws AQ /\ wfB ex_B /\ wfB ex_B' /\ bn ex_B' = bn ex_B /\ bm1 ex_B' = bm1 ex_B /\ bm2 ex_B' = bm2 ex_B.
+Proof. split; [exact AQ_RingLaws|]. repeat split. Qed.
+
+(* ---- compound assignments; `B += c` / `B -= c` reach the stored in-band entries only ---- *)
+Theorem band_assign_dense : forall (A : Arith), RingLaws A -> forall (B C : banded A) (s : A),
+  wfB B -> wfB C -> bn C = bn B -> bm1 C = bm1 B -> bm2 C = bm2 B ->
+  (exists R, band_add_assign B C = Ok R /\ like B R /\
+     forall i j, i < bn B -> j < bn B -> dense_entry R i j = add (dense_entry B i j) (dense_entry C i j)) /\
+  (exists R, band_sub_assign B C = Ok R /\ like B R /\
+     forall i j, i < bn B -> j < bn B -> dense_entry R i j = sub (dense_entry B i j) (dense_entry C i j)) /\
+  (exists R, band_mul_assign_s B s = Ok R /\ like B R /\
+     forall i j, i < bn B -> j < bn B -> dense_entry R i j = mul (dense_entry B i j) s) /\
+  (exists R, band_add_assign_s B s = Ok R /\ like B R /\
+     forall i j, i < bn B -> j < bn B ->
+       dense_entry R i j = if in_band (bm1 B) (bm2 B) i j then add (dense_entry B i j) s else zero) /\
+  (exists R, band_sub_assign_s B s = Ok R /\ like B R /\
+     forall i j, i < bn B -> j < bn B ->
+       dense_entry R i j = if in_band (bm1 B) (bm2 B) i j then sub (dense_entry B i j) s else zero).
+Proof. intros A RL B C s. exact (band_assign_dense_lemma RL B C s). Qed.
+Check band_assign_dense : forall (A : Arith), RingLaws A -> forall (B C : banded A) (s : A),
+  wfB B -> wfB C -> bn C = bn B -> bm1 C = bm1 B -> bm2 C = bm2 B ->
+  (exists R, band_add_assign B C = Ok R /\ like B R /\
+     forall i j, i < bn B -> j < bn B -> dense_entry R i j = add (dense_entry B i j) (dense_entry C i j)) /\
+  (exists R, band_sub_assign B C = Ok R /\ like B R /\
+     forall i j, i < bn B -> j < bn B -> dense_entry R i j = sub (dense_entry B i j) (dense_entry C i j)) /\
+  (exists R, band_mul_assign_s B s = Ok R /\ like B R /\
+     forall i j, i < bn B -> j < bn B -> dense_entry R i j = mul (dense_entry B i j) s) /\
+  (exists R, band_add_assign_s B s = Ok R /\ like B R /\
+     forall i j, i < bn B -> j < bn B ->
+       dense_entry R i j = if in_band (bm1 B) (bm2 B) i j then add (dense_entry B i j) s else zero) /\
+  (exists R, band_sub_assign_s B s = Ok R /\ like B R /\
+     forall i j, i < bn B -> j < bn B ->
+       dense_entry R i j = if in_band (bm1 B) (bm2 B) i j then sub (dense_entry B i j) s else zero).
+Print Assumptions band_assign_dense.
+
+(* ---- division by a nonzero scalar, over a field ---- *)
+Theorem band_div_dense : forall (A : Arith) (FL : FieldLaws A) (B : banded A) (s : A),
+  wfB B -> eqb s zero = false ->
+  (exists R, band_div B s = Ok R /\ like B R /\
+     forall i j, i < bn B -> j < bn B -> dense_entry R i j = mul (dense_entry B i j) (fl_inv A FL s)) /\
+  (exists R, band_div_assign_s B s = Ok R /\ like B R /\
+     forall i j, i < bn B -> j < bn B -> dense_entry R i j = mul (dense_entry B i j) (fl_inv A FL s)).
+Proof. intros A FL B s. exact (band_div_dense_lemma FL B s). Qed.
+Check band_div_dense : forall (A : Arith) (FL : FieldLaws A) (B : banded A) (s : A),
+  wfB B -> eqb s zero = false ->
+  (exists R, band_div B s = Ok R /\ like B R /\
+     forall i j, i < bn B -> j < bn B -> dense_entry R i j = mul (dense_entry B i j) (fl_inv A FL s)) /\
+  (exists R, band_div_assign_s B s = Ok R /\ like B R /\
+     forall i j, i < bn B -> j < bn B -> dense_entry R i j = mul (dense_entry B i j) (fl_inv A FL s)).
+Print Assumptions band_div_dense.
+Example band_div_dense_nonvacuous : wfB ex_B /\ @eqb AQ (q 2 1) zero = false.
+Proof. split; [repeat split|reflexivity]. Qed.
